@@ -1180,7 +1180,12 @@ func (c *RaftCluster) SetStoreWeight(storeID uint64, leaderWeight, regionWeight 
 		core.SetRegionWeight(regionWeight),
 	)
 
-	return c.putStoreLocked(newStore)
+	if err := c.putStoreLocked(newStore); err != nil {
+		// best effort: the weights are not part of the meta record, put the old ones back
+		_ = c.storage.SaveStoreWeight(storeID, store.GetLeaderWeight(), store.GetRegionWeight())
+		return err
+	}
+	return nil
 }
 
 func (c *RaftCluster) putStoreLocked(store *core.StoreInfo) error {
